@@ -45,7 +45,8 @@ Definition lift_r {A} (b : bus) (r : rres A) : res bus A :=
 Definition dev_read_byte (d : device) (a : Z) (b : bus) : res bus Z :=
   match d with
   | DDuart => match duart_read_byte (a - 2097152) (duart_ b) with
-              | ROk (v, du) => Ok v (with_duart b du) | RErr e => Err (EBus e) b | RPanic => Panic end
+              (* Duart::read_byte returns u8 *)
+              | ROk (v, du) => Ok (w8 v) (with_duart b du) | RErr e => Err (EBus e) b | RPanic => Panic end
   | DMouse => Err (EBus BRead) b
   | _ => lift_r b (mem_read_byte (dev_mem b d) a)
   end.
